@@ -127,7 +127,9 @@ const MALFORMED: [(&str, &[&str]); 6] = [
     ("UnknownPreProcessorCommand", &["!x", "!Print a", "!include a", "!print2", "!unknown a b"]),
 ];
 
-const WELLFORMED: [&str; 10] = [
+const WELLFORMED: [&str; 12] = [
+    "été = set é",
+    "  中 \"ü ö\" # ß",
     "",
     "# comment \"x \\q",
     "cmd a b",
@@ -142,7 +144,7 @@ const WELLFORMED: [&str; 10] = [
 
 pub fn bounds(tier: Tier) -> Value {
     match tier {
-        Tier::Quick => json!({"text_len_12chars": 7, "token_seq": 4, "planted_lines": 3}),
+        Tier::Quick => json!({"text_len_12chars": 7, "text_len_14chars": 5, "token_seq": 4, "planted_lines": 3}),
         Tier::Thorough => json!({"text_len_12chars": 8, "text_len_14chars": 7, "token_seq": 5, "planted_lines": 4}),
     }
 }
@@ -279,8 +281,10 @@ pub fn worker(w: &mut Worker) {
             run_text(w, &s.concat(), &[], "text");
         }
     }
-    if tier == Tier::Thorough {
-        for s in Strings::new(&SIGMA_T[..], 1, 7) {
+    // texts that use the two extra characters (TAB, a non-ASCII letter)
+    {
+        let l14 = tier.pick(5usize, 7usize);
+        for s in Strings::new(&SIGMA_T[..], 1, l14) {
             // only texts that use one of the two extra characters are new
             if !s.iter().any(|c| *c == "\t" || *c == "é") {
                 continue;
